@@ -113,9 +113,6 @@ func (u *Unit) typeFacts(st *State, v Term, t types.Type) {
 		u.assume("(>= (tag " + v + ") 0)")
 		u.assume("(=> (= (tag " + v + ") 0) (= (val " + v + ") null))")
 	case *types.Slice:
-		if isByteSlice(t) {
-			return
-		}
 		u.assume(fmt.Sprintf("(and (< (sbase %s) %s) (>= (sbase %s) 0) (>= (soff %s) 0) (>= (slen %s) 0) (<= (slen %s) (scap %s)) (=> (= (sbase %s) 0) (and (= (slen %s) 0) (= (scap %s) 0) (= (soff %s) 0))))",
 			v, u.get(st, "alloc"), v, v, v, v, v, v, v, v, v))
 	case *types.Struct:
@@ -316,7 +313,18 @@ func (u *Unit) eventSorts(kind string) []string {
 	}
 	if d, ok := u.P.CS.Events[kind]; ok {
 		var s []string
-		for _, a := range d.Args {
+		for i, a := range d.Args {
+			if k := strings.Index(a.Sort, "."); k > 0 {
+				// a Go type name (pkg.Type): the sort of that type
+				if t := u.P.lookupType(nil, a.Sort[:k], a.Sort[k+1:]); t != nil {
+					if u.eventArgTyp == nil {
+						u.eventArgTyp = map[string]types.Type{}
+					}
+					u.eventArgTyp[kind+"/"+fmt.Sprint(i)] = t
+					s = append(s, u.sorts.sortOf(t))
+					continue
+				}
+			}
 			s = append(s, a.Sort)
 		}
 		u.eventArgSorts[kind] = s
